@@ -86,12 +86,17 @@ class Center:
         else:
             res = self.offset
 
+        offset_orientation = self.orientation
+
         if hasattr(res, "form"):
             # The offset is a vector: position and velocity, whatever the form
             # the state is held in
             res = res.copy(form="cartesian")
+            # expressed along the axes of the frame the state is given in: a propagator
+            # may deliver its states in a frame of its own
+            offset_orientation = res.frame.orientation
 
-        return self.orientation.convert_to(date, orientation) @ res
+        return offset_orientation.convert_to(date, orientation) @ res
 
 
 Earth = Center("Earth", body=constants.Earth)
